@@ -187,7 +187,10 @@ func (c *context) collectPackageInputs(m *manifestBuilder, pkg *aPackage) error 
 		linkPkgs = append(linkPkgs, pkg.AltPkg.Package)
 	}
 	for _, lp := range linkPkgs {
-		_, files := llgoFilesSpec(lp)
+		// The "$VAR:" / "$(pkg-config --cflags x):" prefix is expanded into
+		// compiler flags for these files: what it expands to is an input.
+		cflags, files := llgoFilesSpec(lp)
+		m.pkg.LinkCFlags = append(m.pkg.LinkCFlags, cflags...)
 		if len(files) == 0 {
 			continue
 		}
